@@ -311,6 +311,46 @@ def gen_group_case(rng, base_msh_lines, node_ids, cid):
             'kinds': kinds, 'solution': sol}
 
 
+# ------------------------------------------------------------------ _generate_constraints, exhaustively
+def gen_mask_tables():
+    """every NaN mask of a 1 x 3, 2 x 3 and 3 x 3 table (8 + 64 + 512), ids unsorted, distinct values"""
+    import itertools
+    out = []
+    for n in (1, 2, 3):
+        ids = [7, 3, 11][:n]
+        for bits in itertools.product((0, 1), repeat=3 * n):
+            rows = [[(float(3 * r + c + 1).hex() if bits[3 * r + c] else None) for c in range(3)]
+                    for r in range(n)]
+            out.append({'id': len(out), 'ids': ids, 'rows': rows})
+    return out
+
+
+def run_gen_child(ctx, tables):
+    import subprocess
+    spec = {'out': str(ctx.scratch / 'impl_gen.json'), 'tables': tables}
+    r = subprocess.run([lib.PY, str(lib.VERIF / 'harness' / 'c03_impl.py')], input=json.dumps(spec),
+                       text=True, capture_output=True, env=lib.impl_env(), timeout=600)
+    if r.returncode != 0:
+        raise RuntimeError('c03_impl failed: ' + r.stderr[-2000:])
+    return {x['id']: x for x in json.loads(Path(spec['out']).read_text())}
+
+
+def gen_item(t, r):
+    """Model.gen_constraints on the table = what _generate_constraints returned (ids, both dof
+    columns, values, in order), as the !BOUNDARY rows"""
+    rows = lib.coq_list([
+        f'({lib.coq_Z(i)}, ' + lib.coq_list(['None' if h is None else f'Some {cm.coq_dec(cm.f2dec(fx(h), 5))}'
+                                             for h in row]) + ')'
+        for i, row in zip(t['ids'], t['rows'])])
+    if 'error' in r:
+        want = ['ERROR']
+    else:
+        want = [f'{i},{d[0]},{d[1] if len(d) > 1 else "?"},{cm.f2dec(fx(v), 5)}'
+                for i, d, v in zip(r['ids'], r['dof'], r['values'])]
+    return (f'lines_eqb (match gen_constraints {rows} with Ok l => map boundary_row l '
+            f'| Err _ => ["ERROR"] end) {cm.coq_lines(want)}')
+
+
 # ------------------------------------------------------------------ Coq evaluation
 def coq_failing(ctx, name, items, timeout=900, chunk_bytes=60000):
     from concurrent.futures import ThreadPoolExecutor
@@ -513,20 +553,27 @@ def main(ctx):
         assert want == cm.f2dec(v, frac), (want, cm.f2dec(v, frac))
         fmt_items.append((n_, f'String.eqb (Fmt.fmt_text {frac} {"true" if neg else "false"} '
                               f'{lib.coq_Z(mm)} {lib.coq_Z(ee)}) {lib.coq_str(want)}'))
-    bad_text = bad_read = bad_fmt = None
+    # translator validation: _generate_constraints of the tree under test on every NaN mask of
+    # 1..3 rows x 3 dof = Model.gen_constraints (with the translated / baseline gen_empty_ok)
+    mask_tables = gen_mask_tables()
+    res_gen = run_gen_child(ctx, mask_tables)
+    gen_items = [(t['id'], gen_item(t, res_gen[t['id']])) for t in mask_tables]
+    bad_text = bad_read = bad_fmt = bad_gen = None
     if model_ok:
         t0 = time.time()
+        bad_gen = coq_failing(ctx, 'CorrGen', gen_items)
+        ctx.log(f'_generate_constraints on all {len(gen_items)} NaN masks in Coq: disagreements {bad_gen}')
         bad_fmt = coq_failing(ctx, 'CorrFmt', fmt_items)
         ctx.log(f'number layer in Coq ({len(fmt_items)} values): disagreements {bad_fmt}')
         bad_text = coq_failing(ctx, 'CorrText', text_items)
         bad_read = coq_failing(ctx, 'CorrRead', read_items)
         ctx.log(f'correspondence in Coq ({len(text_items)} texts, {len(read_items)} reads): '
                 f'{time.time() - t0:.1f}s; disagreements: text {bad_text}, read {bad_read}')
-    ctx.corr = {'cases': len(text_items) + len(read_items) + len(fmt_items), 'text_cases': len(text_items),
-                'read_cases': len(read_items), 'number_cases': len(fmt_items),
-                'disagreements': (len(bad_text) + len(bad_read) + len(bad_fmt))
-                if bad_text is not None and bad_read is not None and bad_fmt is not None
-                else 'not evaluated'}
+    ctx.corr = {'cases': len(text_items) + len(read_items) + len(fmt_items) + len(gen_items),
+                'text_cases': len(text_items), 'read_cases': len(read_items),
+                'number_cases': len(fmt_items), 'generate_constraints_masks': len(gen_items),
+                'disagreements': (len(bad_text) + len(bad_read) + len(bad_fmt) + len(bad_gen))
+                if None not in (bad_text, bad_read, bad_fmt, bad_gen) else 'not evaluated'}
 
     if relevant:
         ctx.notes['tie'] = '; '.join(
@@ -659,6 +706,16 @@ def main(ctx):
         ctx.violation('correspondence', {'group_cases': ng_bad[:5]}, 'node groups = ALL + !NGROUP blocks',
                       'femio read other node groups', 'correspondence C03 node groups',
                       found_input=False, signature={'kind': 'correspondence', 'side': 'node_groups'})
+    if bad_gen:
+        for n_ in bad_gen[:2]:
+            t = mask_tables[n_]
+            allnan = all(h is None for row in t['rows'] for h in row)
+            ctx.violation('correspondence', {'gen_table': t}, 'Model.gen_constraints (column-major gather)',
+                          {'_generate_constraints': res_gen[n_]},
+                          'correspondence C03: _generate_constraints = Model.gen_constraints on every NaN mask',
+                          found_input=True,
+                          signature={'kind': 'correspondence', 'side': 'generate_constraints', 'all_nan': allnan},
+                          what='_generate_constraints returns other (id, dof, dof, value) rows than the model')
     if bad_fmt:
         for n_ in bad_fmt[:3]:
             hx, frac = fmt_keys[n_]
@@ -677,7 +734,7 @@ def main(ctx):
                       'C03_cnt_sections_as_modelled', found_input=impl_bad > 0 or bool(bad_text),
                       signature={'kind': 'cfg-sections'},
                       what='per-run obligation on the translated section table of write_cnt fails')
-    if model_ok and (bad_text is None or bad_read is None or bad_fmt is None):
+    if model_ok and None in (bad_text, bad_read, bad_fmt, bad_gen):
         ctx.violation('correspondence', {}, 'correspondence files compile', 'coqc failed',
                       'correspondence C03', found_input=False,
                       signature={'kind': 'correspondence', 'side': 'coqc'})
@@ -735,6 +792,20 @@ def replay(path):
             r['read']['solution_type'] != (m.get('solution_type') or 'STATIC')
         print('property', 'VIOLATED' if bad else 'holds', 'on this input')
         return 1 if bad else 0
+    if 'gen_table' in c:
+        t = c['gen_table']
+        r = run_gen_child(ctx, [t])[t['id']]
+        print('implementation _generate_constraints:', json.dumps(r))
+        bad_ = coq_failing(ctx, 'ReplayGen', [(0, gen_item(t, r))])
+        print('model agrees' if bad_ == [] else 'model DISAGREES (or could not be evaluated)')
+        return 1 if bad_ != [] else 0
+    if 'value_hex' in c:
+        v = fx(c['value_hex'])
+        neg, mm, ee = float_parts(v)
+        print('printf :', '%.*E' % (c['digits'], v))
+        print('model  :', coq_show(ctx, 'Replay', f'[Fmt.fmt_text {c["digits"]} {"true" if neg else "false"} '
+                                                    f'{lib.coq_Z(mm)} {lib.coq_Z(ee)}]'))
+        return 1
     print('nothing to replay on the implementation:', json.dumps(rp, indent=1)[:2000])
     return 1
 
